@@ -118,7 +118,9 @@ fn main() {
         }
         engines_run.push(eng.clone());
         let mut children = Vec::new();
-        for i in 0..nshards {
+        // Miri (e4): 16 processes, each doing 1/256 of the enumerations and a fixed small number of runs
+        let (procs, denom) = if eng == "e4" { (16usize, 256usize) } else { (nshards, nshards) };
+        for i in 0..procs {
             let frag = format!("{tmpdir}/{eng}-{i}.frag.json");
             let mut cmd = Command::new(&exe);
             cmd.arg(&prop)
@@ -129,11 +131,15 @@ fn main() {
                 .arg("--engine")
                 .arg(eng)
                 .arg("--shard")
-                .arg(format!("{i}/{nshards}"))
+                .arg(format!("{i}/{denom}"))
                 .arg("--frag")
                 .arg(&frag)
                 .stdout(Stdio::null())
                 .stderr(Stdio::piped());
+            if eng == "e4" {
+                cmd.env("VERIF_RUNS_PER_SHARD", std::env::var("VERIF_MIRI_RUNS").unwrap_or_else(|_| "24".to_string()));
+                cmd.env("VERIF_SOFT_BUDGET_S", "1500");
+            }
             if eng == "e3" {
                 cmd.env("ASAN_OPTIONS", "halt_on_error=1:abort_on_error=0:detect_leaks=0:max_allocation_size_mb=2048:exitcode=77");
             }
@@ -153,13 +159,27 @@ fn main() {
                 }
             };
             match std::fs::read_to_string(&frag).ok().and_then(|s| serde_json::from_str::<Value>(&s).ok()) {
-                Some(v) => {
+                Some(mut v) => {
                     e_evals += v["evaluations"].as_u64().unwrap_or(0);
+                    if eng == "e4" {
+                        // Miri shards cover a sample of the enumerated sub-spaces only
+                        v["exhaustive"] = Value::Null;
+                        if v["violations"].as_array().map_or(false, |a| !a.is_empty()) {
+                            merged.note("violations reported by the Miri engine (e4)");
+                        }
+                    }
                     distinct_extra += merged.merge_fragment(&v);
                 }
                 None => {
                     let tail: String = stderr.lines().rev().take(6).collect::<Vec<_>>().into_iter().rev().collect::<Vec<_>>().join(" | ");
-                    if eng == "e3" && status.code() == Some(77) {
+                    if eng == "e4" && stderr.contains("Undefined Behavior") {
+                        let path = format!("{}/replays/{}-miri-{}-{}.txt", verif_root(), prop, seed, i);
+                        std::fs::write(&path, &stderr).ok();
+                        let ctxv = json!({"engine": "e4", "seed": seed, "shard": format!("{i}/{denom}"), "stderr_file": path});
+                        let dummy = dummy_ctx(&prop, tier, seed, eng);
+                        let first = stderr.lines().find(|l| l.contains("Undefined Behavior")).unwrap_or("").to_string();
+                        merged.violation(&dummy, &format!("{}/miri-undefined-behaviour", prop), "no undefined behaviour on the explored inputs", first, ctxv);
+                    } else if eng == "e3" && status.code() == Some(77) {
                         // AddressSanitizer report: a memory error inside the code under test
                         let path = format!("{}/replays/{}-asan-{}-{}.txt", verif_root(), prop, seed, i);
                         std::fs::write(&path, &stderr).ok();
@@ -294,6 +314,7 @@ fn engine_exe(eng: &str) -> String {
     match eng {
         "e2" => format!("{}/harness/target/shipped/rv", verif_root()),
         "e3" => format!("{}/harness/target-asan/x86_64-unknown-linux-gnu/release/rv", verif_root()),
+        "e4" => format!("{}/harness/miri_shard.sh", verif_root()),
         _ => format!("{}/harness/target/release/rv", verif_root()),
     }
 }
